@@ -17,7 +17,8 @@ ANCHORS = ["src/pylife/strength/woehler_fkm_nonlinear.py", "src/pylife/strength/
            "src/pylife/strength/fkm_nonlinear/constants.py"]
 SHARDS = {"quick": 4, "thorough": 16}
 WATCHDOG = {"quick": 900, "thorough": 3000}
-REQUIRED_CLASSES = {t: ["curve:P_RAM", "curve:P_RAJ", "curve:P_RAJ_endurance_value_updated", "pram:S_m<0", "pram:S_m>=0", "pram:negative_product",
+REQUIRED_CLASSES = {t: ["curve:P_RAM", "curve:P_RAJ", "curve:P_RAJ_endurance_value_updated", "table_index:labels_repeat(concatenated_passes)",
+                        "table_index:labelled_by_pass", "table_index:multiindex", "pram:S_m<0", "pram:S_m>=0", "pram:negative_product",
                         "table:half_hystereses", "table:early_failure", "table:no_pass1_rows", "table:below_endurance_rows",
                         "table:zero_damage_pass2", "beta:P_A<=0.5", "gamma:normal", "gamma:lognormal", "gamma:blanket",
                         "gamma:P_L=2.5", "gamma:P_L=50"]
@@ -162,6 +163,19 @@ def _pram(case, ctx, rng):
     Sm[1] = -abs(Sm[1]) * 5 - 3000.0                 # makes S_a + k S_m negative
     ea = rng.uniform(0, 0.01, m)
     coll = pd.DataFrame({"S_a": Sa, "S_m": Sm, "epsilon_a": ea})
+    # how the rows are labelled is the caller's business: two passes concatenated keep their own numbering (labels repeat),
+    # tables labelled by pass, by (hysteresis, point), or not at all
+    lab = int(rng.integers(0, 4))
+    if lab == 1:
+        h = m // 2
+        coll.index = list(range(h)) + list(range(m - h))
+        ctx.tag("table_index:labels_repeat(concatenated_passes)")
+    elif lab == 2:
+        coll.index = pd.Index([1] * (m // 2) + [2] * (m - m // 2), name="run_index")
+        ctx.tag("table_index:labelled_by_pass")
+    elif lab == 3:
+        coll.index = pd.MultiIndex.from_arrays([np.arange(m), np.zeros(m, dtype=int)], names=["hysteresis_index", "assessment_point_index"])
+        ctx.tag("table_index:multiindex")
     ap = pd.Series({"MatGroupFKM": group, "R_m": Rm, "E": E})
     with contextlib.redirect_stdout(io.StringIO()):
         got = DP.P_RAM(coll, ap).collective["P_RAM"].to_numpy(dtype=float)
